@@ -50,6 +50,7 @@ type ccase struct {
 	Quoted string   `json:"quoted,omitempty"`
 	Len    int      `json:"len,omitempty"`    // builder: content length
 	Events [][2]int `json:"events,omitempty"` // builder: [offset,endoffset] in report order
+	TM     string   `json:"tm,omitempty"`     // gen: grammar text of a generated-family parser
 	Second []byte   `json:"second,omitempty"` // reuse-json: the second input parsed with the same parser value
 }
 
@@ -834,11 +835,22 @@ func checkAST(ctx context.Context, lang string, src string, buf []shipped.Event)
 // ---------------------------------------------------------------------------------------------
 
 func run(c *core.Ctx) {
+	// debugging aid: VERIF_C20_ONLY=gen|reusejs runs a single late phase (evidence is then partial)
+	switch os.Getenv("VERIF_C20_ONLY") {
+	case "gen":
+		c.Rule("debug: generated family only")
+		genFamilyPhase(c)
+		return
+	case "reusejs":
+		c.Rule("debug: js reuse histories only")
+		jsReusePhase(c)
+		return
+	}
 	maxLen, edits := 4, 1
 	if !c.Quick() {
 		maxLen, edits = 5, 2
 	}
-	c.Rule(fmt.Sprintf("(a) per shipped event parser configuration (%d of them): every byte string of length <= %d over the language's 14-byte alphabet without/with BOM plus every seed text of internal/shipped with all its <= %d-edit mutations; non-trivial = at least one node is nested in another one or the error handler was called. (b) every event stream with <= N nodes over offsets 0..M (quick 5/3, thorough 6/4) in which any two nodes are disjoint or nested and no node is strictly contained in an earlier one (empty and equal ranges included, disjoint nodes in any order), plus all streams with <= 3 nodes for every shorter content length; non-trivial = some node has a parent other than the root. (c) tm/ast.Parse and js/ast.Parse on the inputs of (a)", len(shipped.ParserConfigs), maxLen, edits))
+	c.Rule(fmt.Sprintf("(a) per shipped event parser configuration (%d of them): every byte string of length <= %d over the language's 14-byte alphabet without/with BOM plus every seed text of internal/shipped with all its <= %d-edit mutations; non-trivial = at least one node is nested in another one or the error handler was called. (b) every event stream with <= N nodes over offsets 0..M (quick 5/3, thorough 6/4) in which any two nodes are disjoint or nested and no node is strictly contained in an earlier one (empty and equal ranges included, disjoint nodes in any order), plus all streams with <= 3 nodes for every shorter content length; non-trivial = some node has a parent other than the root. (c) tm/ast.Parse and js/ast.Parse on the inputs of (a). (d) json parser reuse histories (reuse.go). (e) histories on one js.Parser + js.TokenStream: Init+parse(e1,w1), Init+parse(e2,w2) for all 4x4 entry points, |w1| <= 2 (quick) / 3 over {a ; LF / ` (}, |w2| <= 3 over {a ; LF space + ) ` /}, second parse must equal a fresh pair. (f) 36 (quick) / 48 generated parsers without tokenStream: rules ending in 1-2 nullable symbols (optional, nullable list, optional group, typed empty nonterminal) followed by 0..2 state markers, fixWhitespace on with injected Comment / invalid_token or fixWhitespace off without reported skipped tokens, with and without error recovery; inputs = atom sequences with comments and invalid characters in every gap; non-trivial = a skipped token was reported", len(shipped.ParserConfigs), maxLen, edits))
 	c.Assume("the overlay driver overlays/c20/zz_verif_test.go only feeds events and dumps the tree; it is added to package parsers/tm/ast with go test -overlay (no repository file is replaced)")
 	c.Assume("js/ast uses a textually identical builder (same template); it is covered by (c) only")
 	c.Assume("empty nodes on the boundary of another node are not ordered by the statement; oracle (a) ignores them, reference (b) reads ranges as half-open (see contains())")
@@ -849,6 +861,11 @@ func run(c *core.Ctx) {
 
 	// (b) first: it is the model-checking core and the cheapest.
 	builderPart(c, col, 0)
+
+	// (e), (f): cheap and independent of the input sets below; run them before the long phases so
+	// that a soft-budget cap on a loaded machine never hits them.
+	jsReusePhase(c)
+	genFamilyPhase(c)
 
 	// (a) + (c)
 	seqBase := int64(1) << 60
@@ -1049,6 +1066,10 @@ func replay(c *core.Ctx, raw json.RawMessage) error {
 	switch cc.Kind {
 	case "reuse-json", "reuse-json-noinit":
 		return replayReuse(cc)
+	case "reuse-js":
+		return replayReuseJS(cc)
+	case "gen":
+		return replayGen(cc)
 	case "parser":
 		cfg := shipped.ParserConfigByName(cc.Parser)
 		if cfg == nil {
